@@ -10,7 +10,7 @@ map walk, or a sort removed from a reviewed one (its record changes), breaks the
 has been reviewed here; a site that disappears (map replaced by a slice) does not.
 Reviewed against the pinned tree 1598eac + fixes/C08-less-strict-order.patch (touches none of these
 sites) + fixes/C08-entropy-sum-order.patch (edgeEntropyScore) + fixes/C08-weblist-unprocessed-sorted.patch
-(splitIntoRanges).
+(splitIntoRanges) + fixes/C08-calltree-deterministic.patch (newTree, ComposeDot).
 -/
 namespace PV.Spec.MapRangesExpected
 open PV.MapRange
@@ -25,9 +25,13 @@ def reviewed : List Reviewed := [
   -- line 226: range tm   then: SORT:(*internal/graph.builder).numericNodelets
   { site := { file := "internal/graph/dotgraph.go", fn := "builder.addNodelets", mapType := "map[string]*internal/graph.Tag", kind := .append, sink := "append (indexed slot)", sorted := true, returned := false },
     verdict := .sortedHere },
-  -- line 444: range parentNodeMap   then: return, internal/graph.selectNodesForGraph
-  { site := { file := "internal/graph/graph.go", fn := "newTree", mapType := "map[*internal/graph.Node]internal/graph.NodeMap", kind := .append, sink := "append", sorted := false, returned := true },
-    verdict := .sortedByConsumer "report.newTrimmedGraph sorts Graph.Nodes (Graph.SortNodes → Nodes.Sort) before every printer; selectNodesForGraph only filters" },
+  -- (graph.newTree: since fixes/C08-calltree-deterministic.patch the node list is collected in creation
+  -- order while the samples are walked; the former `range parentNodeMap` append site is gone and is
+  -- deliberately NOT in this list — Props/C08.lean newTree_collects_without_map_walk)
+  -- ComposeDot: range n.Out   then: SORT:sort.Slice (edge comparator, then node ids); `returned` is the
+  -- translator's over-approximation (the `return` inside the sort closure mentions the slice)
+  { site := { file := "internal/graph/dotgraph.go", fn := "ComposeDot", mapType := "map[*internal/graph.Node]*internal/graph.Edge", kind := .append, sink := "append", sorted := true, returned := true },
+    verdict := .sortedHere },
   -- line 530: range s.Label   then: SORT:sort.Strings, return, strings.Join
   { site := { file := "internal/graph/graph.go", fn := "joinLabels", mapType := "map[string][]string", kind := .append, sink := "append", sorted := true, returned := true },
     verdict := .sortedHere },
